@@ -6,7 +6,9 @@ cd /repo || exit 9
 if git apply --check "$P" 2>/dev/null; then git apply "$P"
 elif patch -p1 --dry-run -F3 -s < "$P" >/dev/null 2>&1; then patch -p1 -F3 -s --no-backup-if-mismatch < "$P"
 else echo "PATCH-DOES-NOT-APPLY $P"; exit 8; fi
+SCR=$(mktemp -d)
 for pid in "$@"; do
-  (cd /verif && ./check "$pid" --tier quick 2>&1 | grep -E "^(VIOLATION|UNDECIDED|CHECKER-BROKEN|$pid:)" | cut -c1-260 | head -6; )
+  (cd /verif && PYVC_EVIDENCE_DIR="$SCR/ev" PYVC_REPLAY_DIR="$SCR/rp" ./check "$pid" --tier quick 2>&1 | grep -E "^(VIOLATION|UNDECIDED|CHECKER-BROKEN|$pid:)" | cut -c1-260 | head -6; )
 done
+rm -rf "$SCR"
 cd /repo && git checkout -- . && git status --short | head -3
